@@ -86,6 +86,11 @@ type (
 	}
 	// MapV is a handle to a map object.
 	MapV struct{ ID int }
+	// ChanV is a channel: identity and capacity (contents are ghost state of the contract file).
+	ChanV struct {
+		ID  *Term
+		Cap *Term
+	}
 	// OpaqueV is a value the executor does not model; using it in a way that matters is a tool error.
 	OpaqueV struct{ Why string }
 	// TextV is a vspec.Text value (list of pieces).
